@@ -226,6 +226,7 @@ ENGINES["map_mv"]["configs"]["quick"] += [mapcfg("map_mv_qreset3.cfg", 1, 1, INV
 
 ENGINES["glist"]["configs"]["quick"] += [{"cfg": "glist_qdup.cfg", "module": "MC_List.tla", "flags": ["--persist", "--laws"], "invariants": INV_LIST}]
 ENGINES["map_mv"]["configs"]["quick"] += [mapcfg("map_mv_s_samectx4.cfg", 1, 2)]
+ENGINES["map_map_mv"]["configs"]["quick"] += [mapcfg("map_map_mv_s_inner.cfg", 1, 1)]
 
 # ---- thorough tier = quick configs + larger exhaustive models ----------------------------------
 def _t(engine, extra):
